@@ -75,10 +75,12 @@ SHORT_KEYS = ["A", "AB", "N", "KEY1", "ABCDEFGH", "12345678", "0", "X9", "GEOTYP
 LONG_KEYS = ["LONGKEY_ABC", "A VERY LONG KEY", "A.B.C.D.E.F", "LONG KEY / SLASH", "LONG'QUOTE'KEY", "A  B  C  D  E", "ABCDEFGHI", "HIERARCHABC",
              "K" * 20, "K" * 58, "K" * 59, "K" * 60, "K" * 65, "K" * 66, "K" * 67, "K" * 68, "K" * 70, "K" * 75, "K 2 3 4 5 6 7 8 9 0 1 2 3 4 5 6 7 8 9 0"]
 RESERVED_KEYS = ["TYPE", "TYPEX", "ORDER", "ORDER0", "NAXIS", "NAXIS1", "PERIOD3", "BITPIX", "SIMPLE", "EXTEND", "COMMENT", "COMMENTS", "ORDER OF THINGS", "BITPIXELS ARE"]
-NEAR_RESERVED = ["TYP", "ORDE", "PERIO", "XTYPE", "NAXI", "SIMPL", "ENDTIME", "HISTORYX", "ENDING", "XEND", "PCOUNTS", "COMMEN"]
+NEAR_RESERVED = ["TYP", "ORDE", "PERIO", "XTYPE", "NAXI", "SIMPL", "ENDTIME", "HISTORYX", "ENDING", "XEND", "PCOUNTS", "COMMEN", "EXTNAMES", "EXTNAM", "HDUNAME2", "XHDUNAME"]
 LOWER_KEYS = ["abc", "Key", "lowercase long key", "MiXED", "LONG KEY with lower", "a"]
 PUNCT_KEYS = ["A-B", "A_B", "A B", "A=B", "LONG=KEY=WITH=EQ", "A.B", "A/B", "LONGKEY9.", "#HASHLONGKEY", "A'B", "KEY WITH = SIGN"]
-STRUCT_KEYS = ["END", "HISTORY", "CONTINUE", "", "PCOUNT", "GCOUNT", "EXTNAME", "BZERO", "BSCALE", "BLANK", "XTENSION", "HIERARCH", "DATE", "CHECKSUM", "GROUPS", "EXTVER"]
+# EXTNAME / HDUNAME: the names fits_movnam_hdu compares (the primary HDU included) when the reader looks for KNOTSn / EXTENTS; reserved since the
+# repair of C06:aux-key:EXTNAME-shadows-KNOTSn (repo commit F22_1) — the model (translated list) predicts the rejection
+STRUCT_KEYS = ["END", "HISTORY", "CONTINUE", "", "PCOUNT", "GCOUNT", "EXTNAME", "EXTNAME", "HDUNAME", "HDUVER", "BZERO", "BSCALE", "BLANK", "XTENSION", "HIERARCH", "DATE", "CHECKSUM", "GROUPS", "EXTVER"]
 BLANK_KEYS = [" LEADING SPACE", "TRAILING SPACE ", "HIERARCH ABC DEF", "HIERARCH X", "  TWO LEADING", "HIERARCH  TWOSP", "         ", "          X"]
 NONPRINT_KEYS = ["A\x01LONGKEYCTRL", "TAB\tINLONGKEY", "LONGKEY\xe9HIGH", "LONGKEYCTRL\x02"]
 KEY_CLASSES = [("short", SHORT_KEYS, 30), ("long", LONG_KEYS, 22), ("reserved", RESERVED_KEYS, 8), ("near", NEAR_RESERVED, 6), ("lower", LOWER_KEYS, 5),
@@ -136,7 +138,7 @@ def gen_string_value(rng, k):
     if c == 8:
         return rng.choice(DBL_TEXT)
     if c == 9:
-        return rng.choice(["a / b", "T", "&", "abc&", "x=y", "'quoted'", "\"dq\"", "a,b:c;d"])
+        return rng.choice(["a / b", "T", "&", "abc&", "x=y", "'quoted'", "\"dq\"", "a,b:c;d", "KNOTS0", "KNOTS0", "EXTENTS", "KNOTS1"])
     if c == 10 and rng.chance(0.3):
         return rng.choice(["tab\there", "nl\nhere", "\x01", "caf\xe9"])
     n = rng.choice([rng.rint(1, 10), rng.rint(0, lim + 2), rng.rint(max(0, lim - 3), lim + 1)])
@@ -205,6 +207,8 @@ def entry_class(k, v):
         return "commentary-key"
     if k in ("PCOUNT", "GCOUNT"):
         return "key-PCOUNT-GCOUNT"
+    if k in ("EXTNAME", "HDUNAME"):
+        return "key-EXTNAME-HDUNAME"
     if len(k) > 66:
         return "overlong-key"
     if len(k) > 8 and (k[0] == " " or k[-1] == " " or k.startswith("HIERARCH ")):
